@@ -28,6 +28,13 @@ class ElectionProfileError(Exception):
     "error processing election profile"
 
 
+def _int(tok):
+    "convert a decimal token; CPython refuses very long digit strings with ValueError"
+    try:
+        return int(tok)
+    except ValueError:
+        raise ElectionProfileError('bad blt item "%s...": number too long' % tok[:20])
+
 class ElectionProfile:
     '''
     Election profile
@@ -223,7 +230,7 @@ class ElectionProfile:
         or the resulting cid is out of range
         '''
         if isinstance(nick, str) and re.match(r'\d+$', nick):
-            nick = int(nick)
+            nick = _int(nick)
         if isinstance(nick, int):
             if 0 < nick <= self.nCand:
                 return nick
@@ -327,14 +334,14 @@ class ElectionProfile:
         tok = next(blt)
         if not digits.match(tok):
             raise ElectionProfileError('bad first blt item "%s"; expected number of candidates' % tok)
-        self.nCand = int(tok)
+        self.nCand = _int(tok)
 
         #  number of seats
         #
         tok = next(blt)
         if not digits.match(tok):
             raise ElectionProfileError('bad second blt item "%s"; expected number of seats' % tok)
-        self.nSeats = int(tok)
+        self.nSeats = _int(tok)
 
         #  optional:
         #    general options, flagged with '['
@@ -354,7 +361,7 @@ class ElectionProfile:
             elif tok.startswith('('):   # terminate on ballot ID
                 break
             elif sdigits.match(tok):    # look for a withdrawn candidate or multiplier
-                wd = -int(tok)          # flip sign
+                wd = -_int(tok)         # flip sign
                 if wd <= 0:
                     break               # terminate on multiplier
                 if wd > self.nCand:
@@ -387,7 +394,7 @@ class ElectionProfile:
                 ballotIDs.add(bid)
                 multiplier = 1
             elif digits.match(tok):     # handle multiplier or EOF
-                multiplier = int(tok)
+                multiplier = _int(tok)
             else:
                 raise ElectionProfileError('bad blt item "%s" near line %d; expected decimal number' % \
                     (tok, self.lineNumber))
